@@ -749,3 +749,28 @@ def gen_sparse(rng):
     rng.shuffle(order)
     maxstep = max(max(c["steps"]) for c in comps if c["kind"] == "T")
     return {"comps": permute(comps, order), "end": rng.choice([2, 3, 5, 8]) * maxstep + rng.choice([0, 1])}
+
+
+def gen_relay2_ring(rng):
+    """A ring through a pull-based relay with TWO outputs that both feed the same consumer:
+    A -> P(o0, o1) -> C(i: o0 delayed D, j: o1 delayed D' or undelayed) -> A.  With one of the two links undelayed the
+    cycle is unresolvable (circular coupling must be reported whichever link is declared first); with both delays
+    sufficient the run completes."""
+    unit = rng.choice(UNITS)
+    sa = unit * rng.choice([1, 1, 2])
+    scc = unit * rng.choice([1, 2, 3])
+    need = sa + scc
+    mode = rng.choice(["one_undelayed", "one_undelayed", "equal_sufficient"])
+    d0 = need + rng.choice([0, 0, unit])
+    # (different non-zero delays on the two links make the relay's input see non-monotone requests: known finding F16)
+    d1 = {"one_undelayed": 0, "equal_sufficient": d0}[mode]
+    l0 = {"src": [1, 0], "chain": [["fixed", d0]]}
+    l1 = {"src": [1, 1], "chain": [["fixed", d1]] if d1 else ([["pass"]] if rng.random() < 0.3 else [])}
+    ins = [l0, l1] if rng.random() < 0.6 else [l1, l0]
+    comps = [{"kind": "T", "start": 0, "steps": [sa], "initpull": False, "nout": 1,
+              "inputs": [{"src": [2, 0], "chain": [["pass"]] if rng.random() < 0.3 else []}]},
+             {"kind": "P", "nout": 2, "inputs": [{"src": [0, 0], "chain": []}]},
+             {"kind": "T", "start": 0, "steps": [scc], "initpull": False, "nout": 1, "inputs": ins}]
+    order = list(range(3))
+    rng.shuffle(order)
+    return {"comps": permute(comps, order), "end": max(sa, scc) * rng.choice([2, 3, 5])}
